@@ -48,6 +48,7 @@ structure World where
   privileged : Bool
   sched : List Tid := []
   log : List KCall := []          -- most recent first
+  seccompAvailable : Bool := true -- false: seccomp(2) answers ENOSYS (old kernel, or an outer filter denies it)
 
 /-! ## errno values and constants of the UAPI (checked against Gen.Consts in Proofs/C19) -/
 def EPERM : Nat := 1
@@ -96,7 +97,8 @@ def cannotSync (w : World) : Option Tid :=
 def sysSeccomp (op flags : Nat) (uargs : Option Prog) (w : World) : Nat × Nat × World :=
   let w := schedStep w
   let w := { w with log := .seccomp w.cur op flags uargs :: w.log }
-  if op = SECCOMP_SET_MODE_STRICT then
+  if w.seccompAvailable = false then (0, ENOSYS, w)
+  else if op = SECCOMP_SET_MODE_STRICT then
     if flags ≠ 0 ∨ uargs.isSome then (0, EINVAL, w)
     else (0, 0, w.upd w.cur { w.thr w.cur with strict := true })
   else if op = SECCOMP_SET_MODE_FILTER then
